@@ -271,8 +271,8 @@ def history_independence(sink, seed, tier):  # noqa: C901
 
 def sort_case(sink, seed, idx):
     rng = gen.case_rng(seed, 'c18sort', idx)
-    style = gen.KEY_STYLES[idx % len(gen.KEY_STYLES)]
-    n = rng.choice([0, 1, 2, 3, 5, 8, 13, 40, 70])
+    style = gen.KEY_STYLES[idx % len(gen.KEY_STYLES)] if idx % 3 else ('nan_mixed', 'fs_mixed', 'tie_mixed')[(idx // 3) % 3]
+    n = rng.choice([0, 1, 2, 3, 5, 8, 13, 40, 70]) if idx % 3 else rng.randrange(4, 14)
     keys = gen.gen_keys(rng, n, style)
     if rng.random() < 0.3:
         keys += gen.gen_keys(rng, rng.randrange(1, 6), rng.choice(gen.KEY_STYLES))
